@@ -9,6 +9,7 @@
 //!   Submit{k,c}                    submit the (deterministically built) transaction (k,c) to the txpool
 //!   Produce                        manually produce one block from the txpool, wait until the off-chain worker
 //!                                  and the gas price service have caught up
+//!   Tick                           sleep 1.1 s (wall-clock time passes, nothing else)
 //!   DryRun{txs,at,uv,rec,gp}       dryRun / dryRunRecordStorageReads
 //!   Est{p}                         estimatePredicates
 //!   Asm{k,who}                     assembleTx
@@ -27,7 +28,6 @@ use fuel_core::{
     chain_config::{CoinConfig, Owner, StateConfig},
     combined_database::CombinedDatabase,
     database::{database_description::DatabaseDescription, Database},
-    fuel_core_graphql_api::ports::OffChainDatabase,
     service::{config::Trigger, Config, FuelService},
 };
 use fuel_core_client::client::{
@@ -44,7 +44,7 @@ use fuel_core_storage::{
 use fuel_core_types::{
     fuel_asm::{op, GTFArgs, RegId},
     fuel_tx::{
-        Address, AssetId, Bytes32, ConsensusParameters, ContractId, CreateMetadata, Finalizable, Input, Output,
+        Address, AssetId, Bytes32, ConsensusParameters, ContractId, CreateMetadata, Finalizable, Input, Output, Receipt,
         StorageSlot, Transaction, TransactionBuilder, TxId, TxPointer, UniqueIdentifier, UtxoId,
     },
     fuel_types::{BlockHeight, Nonce},
@@ -274,7 +274,14 @@ impl Node {
 
     fn script_of(&self, k: &str) -> (Vec<u8>, Vec<u8>, Option<ContractId>) {
         match k {
-            "ok" | "ghost" => ([op::ret(RegId::ONE)].into_iter().collect(), vec![], None),
+            // logs the timestamp of the block being simulated, so that the complete answer depends on it
+            "ok" | "ghost" => (
+                [op::bhei(0x10), op::time(0x11, 0x10), op::log(0x11, 0x10, RegId::ZERO, RegId::ZERO), op::ret(RegId::ONE)]
+                    .into_iter()
+                    .collect(),
+                vec![],
+                None,
+            ),
             "rev" => ([op::rvrt(RegId::ONE)].into_iter().collect(), vec![], None),
             "inc" => {
                 let (s, d) = Self::call_script(self.contract);
@@ -413,7 +420,7 @@ impl Node {
         let offv = off.latest_view().unwrap_or_else(|e| die(&format!("off view: {e:?}")));
         let mut owned = Vec::new();
         let owner = addr_of(&self.a);
-        for id in offv.owned_coins_ids(&owner, None, IterDirection::Forward) {
+        for id in offv.owned_coins_ids(&owner, None, Some(IterDirection::Forward)) {
             if let Ok(id) = id {
                 for c in 1..=self.ncoins {
                     if utxo_a(c) == id {
@@ -450,10 +457,14 @@ impl Node {
                 Some(ProgramState::Return(v)) => json!({"s": "S", "v": *v as i64}),
                 _ => json!({"s": "S", "v": -1}),
             },
-            TransactionExecutionResult::Failed { result, .. } => match result {
-                Some(ProgramState::Revert(_)) => json!({"s": "R", "v": -1}),
-                _ => json!({"s": "P", "v": -1}),
-            },
+            // a panic (also one appended by the dry run for contracts missing from the inputs) or a revert
+            TransactionExecutionResult::Failed { receipts, .. } => {
+                if receipts.iter().any(|r| matches!(r, Receipt::Panic { .. })) {
+                    json!({"s": "P", "v": -1})
+                } else {
+                    json!({"s": "R", "v": -1})
+                }
+            }
         }
     }
 
@@ -463,7 +474,7 @@ impl Node {
             "dup".into()
         } else if l.contains("the specified coin") && l.contains("doesn't exist") {
             "coin".into()
-        } else if l.contains("contract") && (l.contains("not exist") || l.contains("doesn't exist") || l.contains("not found")) {
+        } else if l.contains("contract") && (l.contains("doesnotexist") || l.contains("not exist") || l.contains("doesn't exist") || l.contains("not found")) {
             "contract".into()
         } else if l.contains("insufficient") || l.contains("not enough") {
             "funds".into()
@@ -477,6 +488,9 @@ impl Node {
     }
 
     fn answer(&mut self, e: &str, r: Vec<Value>, full: &str) -> Value {
+        if std::env::var("VERIF_DEBUG").is_ok() {
+            eprintln!("ANSWER e={e} r={r:?} full={}", full.chars().take(1500).collect::<String>());
+        }
         let dg = self.ans_dg.id(hash_str(full));
         json!({"e": e, "r": r, "dg": dg})
     }
@@ -520,8 +534,13 @@ impl Node {
     fn estimate(&mut self, p: &str) -> Value {
         let mut tx = match p {
             "none" => self.tx(&ATx { k: "ok".into(), c: 1 }),
-            "true" | "false" => {
-                let code: Vec<u8> = [op::ret(if p == "true" { RegId::ONE } else { RegId::ZERO })].into_iter().collect();
+            "true" | "false" | "bad" => {
+                let code: Vec<u8> = match p {
+                    "true" => [op::ret(RegId::ONE)].into_iter().collect(),
+                    "false" => [op::ret(RegId::ZERO)].into_iter().collect(),
+                    // a contract instruction is not allowed in a predicate
+                    _ => [op::time(0x20, RegId::ONE), op::ret(RegId::ONE)].into_iter().collect(),
+                };
                 let owner = Input::predicate_owner(&code);
                 let mut b = TransactionBuilder::script([op::ret(RegId::ONE)].into_iter().collect(), vec![]);
                 b.with_params(self.params.clone())
@@ -629,6 +648,12 @@ fn exec(n: &mut Node, t: &mut Trace, s: &Map<String, Value>) {
             let st = n.state();
             t.event("Produce", json!({"res": res, "st": st}));
         }
+        "Tick" => {
+            // let wall-clock time pass: answers must not depend on it
+            std::thread::sleep(Duration::from_millis(1100));
+            let st = n.state();
+            t.event("Tick", json!({"st": st}));
+        }
         "DryRun" => {
             let txs: Vec<ATx> = s
                 .get("txs")
@@ -698,9 +723,12 @@ fn random_walk(n: &mut Node, t: &mut Trace, rng: &mut Rng, len: u64) {
             history.clear();
             step(json!({"a": "Produce"}))
         } else if x < 45 && !history.is_empty() {
+            if rng.chance(1, 5) {
+                exec(n, t, &step(json!({"a": "Tick"})));
+            }
             rng.pick(&history).clone()
         } else if x < 52 {
-            step(json!({"a": "Est", "p": *rng.pick(&["true", "false", "none"])}))
+            step(json!({"a": "Est", "p": *rng.pick(&["true", "false", "bad", "none"])}))
         } else if x < 62 {
             step(json!({"a": "Asm", "k": *rng.pick(&["ok", "inc", "rev"]), "who": *rng.pick(&["A", "B", "B", "N"])}))
         } else {
